@@ -57,7 +57,7 @@ func symbolSet(ss []analysis.DocumentSymbol) []string {
 func propC18() *fw.Prop {
 	return &fw.Prop{
 		ID: "C18", Level: "exploration",
-		Rule:            "texts = the C14 family (grammar-complete scripts under layouts; every prefix; token deletions / insertions / duplications / swaps; byte damage incl. non-ASCII and invalid UTF-8; unbalanced brackets; missing names and types; token soups). For each text: analysis.CheckSource twice, GetSymbols, and HoverOn + GotoDefinition at EVERY cursor position of the text plus positions just outside it (long documents — up to 2500 declarations, 1000+ diagnostics, + / − chains of 2..200 operands — are probed at every k-th position), all under a crash guard and a 60 s watchdog; every diagnostic must start inside the document or at its end and not end before it starts; the two analyses must give the same set of diagnostics and of symbols. Distinct = texts that produce ≥ 1 parser error (exercise recovery).",
+		Rule:            "texts = the C14 family (grammar-complete scripts under layouts; every prefix; token deletions / insertions / duplications / swaps; byte damage incl. non-ASCII and invalid UTF-8; unbalanced brackets; missing names and types; token soups). For each text: analysis.CheckSource twice, GetSymbols, and HoverOn + GotoDefinition at EVERY cursor position of the text plus positions just outside it (long documents — up to 2500 declarations, 1000+ diagnostics, + / − chains of 2..200 operands — are probed at every k-th position), all under a crash guard and a 60 s watchdog; every diagnostic must start inside the document or at its end and not end before it starts; the two analyses must give the same set of diagnostics and of symbols. Also: 21 portion texts (zero numerators and / or zero denominators in several spellings) in 21 frames covering every position a portion can be written. Distinct = texts that produce ≥ 1 parser error (exercise recovery).",
 		Assumptions:     []string{trustedBase, "termination restated as bounded progress (60 s per text ≤ 64 KiB)"},
 		Require:         []string{"texts_with_parser_errors", "positions_probed", "diagnostics_located", "prefix_texts", "symbols_compared", "long_documents"},
 		HangIsViolation: true,
